@@ -1,4 +1,7 @@
+#[cfg(not(nexosim_verif))]
 use std::thread::LocalKey;
+#[cfg(nexosim_verif)]
+use crate::verif::thread::LocalKey;
 
 use std::cell::Cell;
 use std::marker;
@@ -10,6 +13,20 @@ use std::ptr;
 /// the addition of a `ScopedLocalKey::unset` method and the use of a `map`
 /// method that returns `Option::None` when the value is not set, rather than
 /// panicking as `with` would.
+#[cfg(nexosim_verif)]
+macro_rules! scoped_thread_local {
+    ($(#[$attrs:meta])* $vis:vis static $name:ident: $ty:ty) => (
+        $(#[$attrs])*
+        $vis static $name: $crate::macros::scoped_thread_local::ScopedLocalKey<$ty>
+            = unsafe {
+                $crate::verif::thread_local!(static FOO: ::std::cell::Cell<*const ()> = const {
+                        ::std::cell::Cell::new(::std::ptr::null())
+                });
+                $crate::macros::scoped_thread_local::ScopedLocalKey::new(&FOO)
+            };
+    )
+}
+#[cfg(not(nexosim_verif))]
 macro_rules! scoped_thread_local {
     ($(#[$attrs:meta])* $vis:vis static $name:ident: $ty:ty) => (
         $(#[$attrs])*
